@@ -14,7 +14,8 @@
 From Coq Require Import String.
 From Coq Require Import ZArith Reals List Bool Arith Lia Lra Permutation.
 From Dadi Require Import Base.Num Base.NumR Model.PopOps Proofs.PopOpsIdx Proofs.PopOpsProofs Proofs.PopOpsReorder
-  Proofs.PopOpsCommute Proofs.PopOpsFoldCommute Proofs.PopOpsCombine Proofs.PopOpsScramble.
+  Proofs.PopOpsCommute Proofs.PopOpsFoldCommute Proofs.PopOpsCombine Proofs.PopOpsScramble
+  Proofs.PopOpsProjCommute Proofs.PopOpsFoldMarg.
 Import ListNotations.
 Local Open Scope R_scope.
 
@@ -186,3 +187,82 @@ Proof. intros a.
   - repeat constructor; simpl; lia.
   - split; [now rewrite E|]. split; [apply (L ["A"%string; "B"%string]); reflexivity|].
     rewrite scramble_conserves_total; [exact T|]. repeat constructor; simpl; lia. Qed.
+
+(** *** commutation with projection and folding (unmasked data)
+    proj_spec ax m a   = Spectrum._project_one_axis(m, ax) on the multi-index representation: entry J of the data is
+                         sum_j H(n, m, j, J[ax]) * a[J with J[ax] := j]  (H = the hypergeometric weight of C08), entry J of the
+                         mask is "some masked source entry in the window contributes"; these ARE the entries of the nested-array
+                         model of C08 (C10_projection_is_the_C08_projection below)
+    proj_all ns a      = Spectrum.project(ns): axis k to ns[k] for k = 0, 1, ...
+    unmasked a         = no entry inside the array is masked;  corner_masked a = at most the two corner entries are *)
+Theorem C10_projection_is_the_C08_projection : forall d ax n m shp (x : Projection.tens R d) (I : idx),
+  ProjTensor.wf d shp x -> (ax < d)%nat -> length I = d -> nth ax shp 0%nat = S n -> (m <= n)%nat -> (nth ax I 0 <= m)%nat ->
+  ProjTensor.tget 0 d I (Projection.proj_axis 0 Rplus d ax (Projection.pcoef n m) m x)
+  = proj_va ax n m (fun I' => ProjTensor.tget 0 d I' x) I.
+Proof. exact proj_va_is_tensor_projection. Qed.
+Theorem C10_mask_projection_is_the_C08_projection : forall d ax n m shp (b : Projection.tens bool d) (I : idx),
+  ProjTensor.wf d shp b -> (ax < d)%nat -> length I = d -> nth ax shp 0%nat = S n -> (m <= n)%nat -> (nth ax I 0 <= m)%nat ->
+  ProjTensor.tget false d I (Projection.proj_axis false orb d ax (Projection.pmask n m) m b)
+  = proj_mk ax n m (fun I' => ProjTensor.tget false d I' b) I.
+Proof. exact proj_mk_is_tensor_projection. Qed.
+
+(** marginalize(project(ns)) = project(ns on the surviving axes)(marginalize): shape, labels, flag, data and mask *)
+Theorem C10_marginalize_commutes_with_projection : forall (a : spec R) over mc ns,
+  fo a = false -> NoDup over -> Forall (fun k => (k < length (sh a))%nat) over ->
+  Forall (fun s => (1 <= s)%nat) (sh a) -> unmasked a ->
+  length ns = length (sh a) -> Forall2 (fun m s => (m < s)%nat) ns (sh a) ->
+  same_spectrum (marginalize_core over mc (proj_all ns a))
+                (proj_all (drop_axes over ns) (marginalize_core over mc a)).
+Proof. exact marginalize_commutes_with_projection. Qed.
+Print Assumptions C10_marginalize_commutes_with_projection.
+
+(** one axis: a surviving axis (projected at its new position afterwards), a dropped axis (projection is irrelevant:
+    the weights H sum to 1 along the projected axis) *)
+Theorem C10_marginalize_projection_of_surviving_axis : forall (a : spec R) over mc ax m,
+  fo a = false -> NoDup over -> Forall (fun k => (k < length (sh a))%nat) over ->
+  Forall (fun s => (1 <= s)%nat) (sh a) -> unmasked a ->
+  (ax < length (sh a))%nat -> (m <= pred (nth ax (sh a) 0))%nat -> ~ In ax over ->
+  same_spectrum (marginalize_core over mc (proj_spec ax m a))
+                (proj_spec (index_of ax (kept over (length (sh a)))) m (marginalize_core over mc a)).
+Proof. exact marginalize_proj_kept. Qed.
+Theorem C10_marginalize_projection_of_dropped_axis : forall (a : spec R) over mc ax m,
+  fo a = false -> NoDup over -> Forall (fun k => (k < length (sh a))%nat) over ->
+  Forall (fun s => (1 <= s)%nat) (sh a) -> unmasked a ->
+  (ax < length (sh a))%nat -> (m <= pred (nth ax (sh a) 0))%nat -> In ax over ->
+  same_spectrum (marginalize_core over mc (proj_spec ax m a)) (marginalize_core over mc a).
+Proof. exact marginalize_proj_dropped. Qed.
+
+(** combine_two_pops and projection of an axis that is not merged *)
+Theorem C10_combine_two_commutes_with_projection : forall (a : spec R) p q ax m,
+  (1 <= p <= length (sh a))%nat -> (1 <= q <= length (sh a))%nat -> p <> q ->
+  Forall (fun s => (1 <= s)%nat) (sh a) -> unmasked a ->
+  (ax < length (sh a))%nat -> ax <> pred p -> ax <> pred q -> (m <= pred (nth ax (sh a) 0))%nat ->
+  let ax' := if (ax <? pred (Nat.max p q))%nat then ax else (ax - 1)%nat in
+  same_spectrum (combine_two_pops p q (proj_spec ax m a)) (proj_spec ax' m (combine_two_pops p q a)).
+Proof. exact combine_two_commutes_with_projection. Qed.
+Print Assumptions C10_combine_two_commutes_with_projection.
+
+(** marginalize(fold fs) and fold(marginalize fs): same shape, labels, folded flag and mask, same data wherever unmasked
+    (the two corner entries of the result are masked on both sides; there the data differ) *)
+Theorem C10_marginalize_commutes_with_fold : forall (g : spec R) over mc,
+  fo g = false -> NoDup over -> Forall (fun k => (k < length (sh g))%nat) over ->
+  Forall (fun s => (1 <= s)%nat) (sh g) -> corner_masked g ->
+  same_visible (marginalize_core over mc (fold g)) (fold (marginalize_core over mc g)).
+Proof. exact marginalize_commutes_with_fold. Qed.
+Print Assumptions C10_marginalize_commutes_with_fold.
+
+(** non-vacuity: a concrete unmasked 2 x 3 spectrum satisfies the hypotheses above *)
+Example C10_commutation_nonvacuous :
+  let a := of_flat [2; 3]%nat [1; 2; 3; 4; 5; 6] [false; false; false; false; false; false] None false in
+  fo a = false /\ unmasked a /\ corner_masked a /\ Forall (fun s => (1 <= s)%nat) (sh a) /\
+  Forall2 (fun m s => (m < s)%nat) [1; 1]%nat (sh a) /\
+  same_spectrum (marginalize_core [1%nat] true (proj_all [1; 1]%nat a)) (proj_all [1%nat] (marginalize_core [1%nat] true a)).
+Proof. intros a.
+  assert (U : unmasked a).
+  { intros I HI. apply in_indices in HI. simpl in HI. repeat (destruct HI as [<-|HI]; [reflexivity|]). contradiction. }
+  assert (P : Forall (fun s => (1 <= s)%nat) (sh a)) by (repeat constructor).
+  assert (F2 : Forall2 (fun m s => (m < s)%nat) [1; 1]%nat (sh a)) by (repeat constructor).
+  split; [reflexivity|]. split; [exact U|]. split; [intros I HI E; rewrite (U I HI) in E; discriminate|].
+  split; [exact P|]. split; [exact F2|].
+  apply (marginalize_commutes_with_projection a [1%nat] true [1; 1]%nat); auto.
+  all: try (constructor; [intros []|constructor]); try (constructor; [simpl; lia|constructor]). Qed.
